@@ -39,6 +39,7 @@ class Contract:
         self.local_sorts = kw.pop("local_sorts", {})
         self.ghost_init = kw.pop("ghost_init", None)
         self.ghost_vars = kw.pop("ghost_vars", [])
+        self.opaque_locals = kw.pop("opaque_locals", [])  # locals whose value may be left unmodelled (only flow into opaque sinks)
         self.pure_fn = kw.pop("pure_fn", None)  # name of an uninterpreted function: at call sites result := pure_fn(args) (deterministic, heap-free function)
         self.only_in = kw.pop("only_in", None)  # a virtual contract that is only used while verifying the listed functions
         self.virtual = kw.pop("virtual", False)  # contract of a base-class method that every override must satisfy (no dispatch fork at call sites)
